@@ -199,8 +199,30 @@ func (r *Run) Violation(sig, what string, witness interface{}) {
 		v = &violation{Sig: sig, What: what, Witness: witness}
 		r.viols[sig] = v
 		r.violOrder = append(r.violOrder, sig)
+		// recorded at once: a monitor that is stopped from outside before it reaches Finish (the code under test spins,
+		// a child never returns) has still said what it saw; ./check turns these lines into the verdict in that case
+		if len(r.violOrder) <= 25 {
+			if p := r.writeReplay(v); p != "" {
+				fmt.Printf("PENDING-VIOLATION property=%s replay=%s sig=%s :: %s\n", r.ID, p, sig, oneLine(what))
+			}
+		}
 	}
 	v.Count++
+}
+
+func (r *Run) writeReplay(v *violation) string {
+	h := sha256.Sum256([]byte(v.Sig))
+	p := filepath.Join(r.WorkDir(), "replay-"+hex.EncodeToString(h[:6])+".json")
+	b, err := json.MarshalIndent(map[string]interface{}{"property": r.ID, "seed": r.Seed, "tier": r.Tier,
+		"sig": v.Sig, "what": v.What, "count": v.Count, "witness": v.Witness}, "", " ")
+	if err != nil {
+		b, _ = json.MarshalIndent(map[string]interface{}{"property": r.ID, "seed": r.Seed, "tier": r.Tier,
+			"sig": v.Sig, "what": v.What, "count": v.Count, "witness": fmt.Sprintf("%+v", v.Witness)}, "", " ")
+	}
+	if os.WriteFile(p, b, 0o644) != nil {
+		return ""
+	}
+	return p
 }
 
 func (r *Run) ViolationCount() int {
